@@ -136,6 +136,15 @@ class _StatePointDict(JSONAttrDict):
                 os.replace(job.path, new_workspace)
             except OSError as error:
                 os.replace(tmp_statepoint_file, self.filename)  # rollback
+                # The job keeps its id: the refused data must not stay behind in
+                # memory, or the next change would start from it.
+                with self._suspend_sync:
+                    if job._cached_statepoint is not None:
+                        self._update(job._cached_statepoint)
+                    if job._cached_statepoint is None or calc_id(self) != old_id:
+                        # Not known, or values that compare equal were kept (1 vs 1.0).
+                        self._data = {}
+                        self._update(job._cached_statepoint)
                 if error.errno in (errno.EEXIST, errno.ENOTEMPTY, errno.EACCES):
                     raise DestinationExistsError(new_id)
                 else:
